@@ -62,11 +62,26 @@ func protoRunFull(p *Prog, fn *ssa.Function, structPoints bool, contracts map[st
 	if initFn := fn.Pkg.Func("init"); initFn != nil && !skipInit {
 		e.frames = []*ssa.Function{initFn}
 		fr := &sFrame{fn: initFn}
+		e.lenient = true
 		e.execFrom(fr, []*sState{st}, initFn.Blocks[0], nil, nil, false)
+		e.lenient = false
 		if len(fr.rets) == 1 {
 			st = fr.rets[0].st
+			if e.softAt > 0 {
+				// part of the initialiser was not followed: every package-level variable stored from then on (or not at
+				// all) is unknown; the ones completed before keep their values (initialisers run in dependency order and
+				// the functions they call do not write other package-level variables)
+				why := "its initialiser cannot be followed (" + strings.Join(e.soft, "; ") + ")"
+				for name, id := range st.gcells {
+					if step, ok := e.cellStoreStep[id]; !ok || step >= e.softAt {
+						if arr, ok := st.heap[id].(*hArray); ok && len(arr.elems) == 1 {
+							arr.elems[0] = sOpaque{"package-level variable " + name + ": " + why}
+						}
+					}
+				}
+			}
 		} else {
-			e.fail("the initialiser of package %s has %d abstract outcomes", fn.Pkg.Pkg.Name(), len(fr.rets))
+			e.fail("the initialiser of package %s has %d abstract outcomes%s", fn.Pkg.Pkg.Name(), len(fr.rets), ifs(len(e.soft) > 0, " ("+strings.Join(e.soft, "; ")+")"))
 		}
 		e.restarts = nil
 	}
